@@ -5,4 +5,6 @@ let next () = int_of_string (next_tok ())
 let next_bool () = next () <> 0
 let next_list f = let c = next () in List.init c (fun _ -> f ())
 let handlers : (Stdlib.String.t * (unit -> unit)) list ref = ref []
-let register name f = handlers := (name, f) :: !handlers
+let register name f =
+  if List.mem_assoc name !handlers then failwith ("fpmodel: command registered twice: " ^ name);
+  handlers := (name, f) :: !handlers
